@@ -221,3 +221,26 @@ PROPS['C07']['kani']['quick'].append(H('c07::c07_unix_sparse_content', 'unix fam
 
 PROPS['C07']['mirsym'] = True
 PROPS['C07']['outside_claim'] = list(PROPS['C07']['outside_claim']) + ['Engine M half: wire bytes of the constructors and of one (quick) / two (thorough) writes only; no parse-back in M']
+
+
+# ---------------------------------------------------------------- Engine M v2 half (mirsym/props_v2.py): unbounded input length
+_V2M = {
+    'C02': 'Engine M half: acceptance and decoding against the reference for every input length (0 <= L <= isize::MAX), i.e. also headers longer than 240 bytes and declared lengths up to 65535 actually present',
+    'C14': 'Engine M half: every accessor on every accepted header of any length',
+    'C17': 'Engine M half: counts and the completion clause for every declared length and every input length',
+    'C11': 'Engine M half: one next() from an arbitrary reachable cursor state of a section of any length (induction over the walk: values and sections of every size)',
+    'C13': 'Engine M half: parse -> rebuild through the builder MIR for headers of any length, TLV section rebuilt raw, through TypeLengthValues, from the decoded address value, and item by item for well-formed sections of at most 2 (quick) / 3 (thorough) items of any value length',
+}
+for _p, _txt in _V2M.items():
+    PROPS[_p] = dict(PROPS[_p])
+    PROPS[_p]['mirsym'] = True
+    PROPS[_p]['engine_m_v2'] = _txt
+
+# the 240-byte / 24-byte limits below are limits of the Engine K harnesses only; what Engine M adds is listed per property
+PROPS['C02']['outside_claim'] = ['Engine K: inputs longer than 240 bytes (Engine M: no length bound)']
+PROPS['C14']['outside_claim'] = ['Engine K: headers longer than 240 bytes (Engine M: no length bound)']
+PROPS['C17']['outside_claim'] = ['Engine K: completion clause only for declared lengths <= 224 (Engine M: every declared length)']
+PROPS['C11']['outside_claim'] = ['Engine K: full walks only of sections <= 24 bytes (Engine M: single inductive step, any size; the multi-step statement follows by induction on the cursor, which is argued in DESIGN.md, not machine-checked)']
+PROPS['C13']['outside_claim'] = ['Engine K: control-byte pairs / payload sizes other than the instantiated literals', 'Engine M: item-by-item rebuild only for well-formed sections of at most 2 (quick) / 3 (thorough) items (any value lengths); raw / section / address-value rebuilds: any size']
+for _p in ('C04', 'C05', 'C12', 'C03', 'C16'):
+    PROPS[_p]['outside_claim'] = [o.replace('header + trailer longer than 240 bytes', 'Engine K: header + trailer longer than 240 bytes (Engine M v2 half: no length bound)').replace('headers longer than 240 bytes', 'Engine K: headers longer than 240 bytes (Engine M v2 half: no length bound)') for o in PROPS[_p].get('outside_claim', [])]
